@@ -25,8 +25,8 @@ def weave_trigger(u, props=('C10',)):
     obs = u.under_contract(u.item('src/trigger.rs', ['fn observe']), props)
     obs.air = r'trigger::observe(::closure_body)?'
     obs.add_param(WORLD)
-    CONTRACT = ('\n    ensures\n        observe_step(old(w).counter, weight, r, final(w).counter),\n'
-                '        *final(w) == (World { counter: final(w).counter, ..*old(w) }),\n')
+    CONTRACT = ('\n    ensures\n        observe_step(old(w).counter, weight, r, final(w).counter),   // @L C10:observe-transition\n'
+                '        *final(w) == (World { counter: final(w).counter, ..*old(w) }),   // @L C10:observe-frame\n')
     obs.contract(ensures=[
         ('C10:observe-transition', 'observe_step(old(w).counter, weight, r, final(w).counter)'),
         ('C10:observe-frame', '*final(w) == (World { counter: final(w).counter, ..*old(w) })'),
